@@ -18,71 +18,73 @@ import (
 // Profile is what a check asks of the run engine: the shape of the workload,
 // the allowed configurations and which oracles are armed.
 type Profile struct {
-	Check       string `json:"check"`
-	Tier        string `json:"tier"`
-	MinClients  int    `json:"min_clients"`
-	MaxClients  int    `json:"max_clients"`
-	MinOps      int    `json:"min_ops"`
-	MaxOps      int    `json:"max_ops"`
-	FSOnly      bool   `json:"fs_only,omitempty"`
-	SafeOnly    bool   `json:"safe_only,omitempty"`
-	Readers     bool   `json:"readers,omitempty"`      // held-reader operations (C04)
-	MergeHeavy  bool   `json:"merge_heavy,omitempty"`  // small tiers/floor sizes (C06, C19)
-	DeleteBias  bool   `json:"delete_bias,omitempty"`  // aim deletes at segments under merge (C06)
-	CloseReopen bool   `json:"close_reopen,omitempty"` // Close / reopen as client operations
-	DupProbe    bool   `json:"dup_probe,omitempty"`    // dedicated same-id-twice probe (C01 known finding)
-	Images      bool   `json:"images,omitempty"`       // keep file contents for crash images
-	DirInv      bool   `json:"dir_inv,omitempty"`      // C11 invariants after every directory operation
-	PlanInv     bool   `json:"plan_inv,omitempty"`     // C19 plan monitors
-	Faults      bool   `json:"faults,omitempty"`
-	MaxWindows  int    `json:"max_windows"`
-	History     bool   `json:"history,omitempty"` // keep invoke/return history (C05)
-	ExtRead     bool   `json:"ext_read,omitempty"`
-	SmallIDs    bool   `json:"small_ids,omitempty"` // 3..6 shared ids so that batches conflict
-	Torn        bool   `json:"torn,omitempty"`      // torn variants of the in-flight persist (C03)
-	ForkDepth   int    `json:"fork_depth,omitempty"`
-	AckedOnly   bool   `json:"acked_only,omitempty"` // unsafe mode only with persisted callbacks
-	NoMerge     bool   `json:"no_merge,omitempty"`   // no merges at all: many segments per snapshot
-	Concurrent  bool   `json:"concurrent,omitempty"`  // C15: release a seeded SET of actors per window (race detector build)
-	EarlyClose  bool   `json:"early_close,omitempty"` // C15: Close while background work is in progress
-	SharedReads bool   `json:"shared_reads,omitempty"`
-	ForceSegVer int    `json:"force_seg_ver,omitempty"`
-	Unshielded  bool   `json:"unshielded,omitempty"` // C15 known-finding probe: ice v2 stored-field buffer not serialised
-	StatsCalls  bool   `json:"stats_calls,omitempty"` // C15 known-finding probe: index.Writer.Stats() under concurrency
-	Diff        bool   `json:"diff,omitempty"`        // C08: differential comparison with canonical builds
-	SnapReads   bool   `json:"snap_reads,omitempty"`  // fresh Reader + full read + close as one client operation
+	Check           string `json:"check"`
+	Tier            string `json:"tier"`
+	MinClients      int    `json:"min_clients"`
+	MaxClients      int    `json:"max_clients"`
+	MinOps          int    `json:"min_ops"`
+	MaxOps          int    `json:"max_ops"`
+	FSOnly          bool   `json:"fs_only,omitempty"`
+	SafeOnly        bool   `json:"safe_only,omitempty"`
+	Readers         bool   `json:"readers,omitempty"`      // held-reader operations (C04)
+	MergeHeavy      bool   `json:"merge_heavy,omitempty"`  // small tiers/floor sizes (C06, C19)
+	DeleteBias      bool   `json:"delete_bias,omitempty"`  // aim deletes at segments under merge (C06)
+	CloseReopen     bool   `json:"close_reopen,omitempty"` // Close / reopen as client operations
+	DupProbe        bool   `json:"dup_probe,omitempty"`    // dedicated same-id-twice probe (C01 known finding)
+	Images          bool   `json:"images,omitempty"`       // keep file contents for crash images
+	DirInv          bool   `json:"dir_inv,omitempty"`      // C11 invariants after every directory operation
+	PlanInv         bool   `json:"plan_inv,omitempty"`     // C19 plan monitors
+	Faults          bool   `json:"faults,omitempty"`
+	MaxWindows      int    `json:"max_windows"`
+	History         bool   `json:"history,omitempty"` // keep invoke/return history (C05)
+	ExtRead         bool   `json:"ext_read,omitempty"`
+	SmallIDs        bool   `json:"small_ids,omitempty"` // 3..6 shared ids so that batches conflict
+	Torn            bool   `json:"torn,omitempty"`      // torn variants of the in-flight persist (C03)
+	ForkDepth       int    `json:"fork_depth,omitempty"`
+	AckedOnly       bool   `json:"acked_only,omitempty"`  // unsafe mode only with persisted callbacks
+	NoMerge         bool   `json:"no_merge,omitempty"`    // no merges at all: many segments per snapshot
+	Concurrent      bool   `json:"concurrent,omitempty"`  // C15: release a seeded SET of actors per window (race detector build)
+	EarlyClose      bool   `json:"early_close,omitempty"` // C15: Close while background work is in progress
+	SharedReads     bool   `json:"shared_reads,omitempty"`
+	ForceSegVer     int    `json:"force_seg_ver,omitempty"`
+	Unshielded      bool   `json:"unshielded,omitempty"`         // C15 known-finding probe: ice v2 stored-field buffer not serialised
+	StatsCalls      bool   `json:"stats_calls,omitempty"`        // C15 known-finding probe: index.Writer.Stats() under concurrency
+	Diff            bool   `json:"diff,omitempty"`               // C08: differential comparison with canonical builds
+	EarlyCloseOneIn int    `json:"early_close_one_in,omitempty"` // with EarlyClose: one run in n closes early (default 2 in 3)
+	AcrossClose     bool   `json:"across_close,omitempty"`       // C04: in half of the runs held Readers stay open over Writer.Close and are read again afterwards
+	SnapReads       bool   `json:"snap_reads,omitempty"`         // fresh Reader + full read + close as one client operation
 
 	PostRun func(r *Run, res *Result) `json:"-"`
 }
 
 // Knobs is the swarm configuration of one run, decoded from the tape.
 type Knobs struct {
-	Dir           string  `json:"dir"` // fs | mem
-	SegVer        int     `json:"seg_ver"`
-	Unsafe        bool    `json:"unsafe"`
-	KeepN         int     `json:"keep_n"`
-	Workers       int     `json:"analysis_workers"`
-	MinMemMerge   int     `json:"min_mem_merge"`
-	NapMS         int     `json:"nap_ms"`
-	NapUnderFiles int     `json:"nap_under_files"`
-	MMap          bool    `json:"mmap"`
-	EventGates    bool    `json:"event_gates"`
-	SegGates      bool    `json:"seg_gates"`
-	MidGate       int     `json:"mid_gate"`
-	IDSpace       int     `json:"id_space"`
-	Clients       int     `json:"clients"`
-	Ops           []int   `json:"ops"`
-	Tiers         int     `json:"plan_max_per_tier"`
-	PerTask       int     `json:"plan_per_task"`
-	Floor         int64   `json:"plan_floor"`
-	MaxSeg        int64   `json:"plan_max_seg"`
-	TierGrowth    float64 `json:"plan_tier_growth"`
+	Dir           string         `json:"dir"` // fs | mem
+	SegVer        int            `json:"seg_ver"`
+	Unsafe        bool           `json:"unsafe"`
+	KeepN         int            `json:"keep_n"`
+	Workers       int            `json:"analysis_workers"`
+	MinMemMerge   int            `json:"min_mem_merge"`
+	NapMS         int            `json:"nap_ms"`
+	NapUnderFiles int            `json:"nap_under_files"`
+	MMap          bool           `json:"mmap"`
+	EventGates    bool           `json:"event_gates"`
+	SegGates      bool           `json:"seg_gates"`
+	MidGate       int            `json:"mid_gate"`
+	IDSpace       int            `json:"id_space"`
+	Clients       int            `json:"clients"`
+	Ops           []int          `json:"ops"`
+	Tiers         int            `json:"plan_max_per_tier"`
+	PerTask       int            `json:"plan_per_task"`
+	Floor         int64          `json:"plan_floor"`
+	MaxSeg        int64          `json:"plan_max_seg"`
+	TierGrowth    float64        `json:"plan_tier_growth"`
 	W             map[string]int `json:"weights"`
-	Sticky        int     `json:"sticky"`
-	PCB           bool    `json:"persisted_callbacks"`
-	Geo           bool    `json:"geo"`
-	MergeBuf      int     `json:"merge_buf"`
-	NoOpt         bool    `json:"no_optimisations"`
+	Sticky        int            `json:"sticky"`
+	PCB           bool           `json:"persisted_callbacks"`
+	Geo           bool           `json:"geo"`
+	MergeBuf      int            `json:"merge_buf"`
+	NoOpt         bool           `json:"no_optimisations"`
 }
 
 func pick(t *Tape, label string, vals ...int) int { return vals[t.Draw(len(vals), label)] }
@@ -141,8 +143,8 @@ func decodeKnobs(p *Profile, t *Tape) *Knobs {
 		k.SegVer = p.ForceSegVer
 	}
 	if p.Concurrent {
-		k.MidGate = 0      // a shielded merger parked mid-write would block readers on a plain mutex
-		k.SegGates = true  // the shield lives in the segment wrapper
+		k.MidGate = 0     // a shielded merger parked mid-write would block readers on a plain mutex
+		k.SegGates = true // the shield lives in the segment wrapper
 		k.EventGates = t.Chance(1, 2, "k.conc.eventgates")
 	}
 	if p.NoMerge {
@@ -224,79 +226,79 @@ type Run struct {
 	t *Tape
 	s *Sim
 
-	root   string // scratch root for this run
-	dir    string // index directory (fs)
-	trace  *DirTrace
-	cfg    bluge.Config
-	w      *bluge.Writer
-	wOpen  bool
+	root  string // scratch root for this run
+	dir   string // index directory (fs)
+	trace *DirTrace
+	cfg   bluge.Config
+	w     *bluge.Writer
+	wOpen bool
 
-	mu      sync.Mutex // harness state touched by client goroutines
-	clients []*client
-	batches []*BatchSpec
-	stored  map[string]map[string]string
-	slots   []*heldReader
-	viol    *Violation
+	mu        sync.Mutex // harness state touched by client goroutines
+	clients   []*client
+	batches   []*BatchSpec
+	stored    map[string]map[string]string
+	slots     []*heldReader
+	viol      *Violation
 	asyncErrs int
 
-	chain     *Chain
-	returned  []int // batches whose call returned in the current window
-	acks      map[int]int // batch -> window of acknowledgement
-	ackErr    map[int]string
-	winEvents []*Event
-	opsLog    []string
-	sched     []string
-	lastRel   string
-	nextBatch int
+	chain         *Chain
+	returned      []int       // batches whose call returned in the current window
+	acks          map[int]int // batch -> window of acknowledgement
+	ackErr        map[int]string
+	winEvents     []*Event
+	opsLog        []string
+	sched         []string
+	lastRel       string
+	nextBatch     int
 	bgSinceClient int
-	stats   RunStats
-	idspace []string
-	lastMonKey string
-	lastLayout string
-	finalModel *Model
-	hist      []HistOp
-	invokeSeq map[int]int
-	stopping  bool
-	budgetStop bool
-	parkedLog []string
-	merging   map[string][]string // actor -> ids of live documents in the segments it is merging
-	callWin   map[int]int
-	prevMonKey string
-	snapReads []readData
+	stats         RunStats
+	idspace       []string
+	lastMonKey    string
+	lastLayout    string
+	finalModel    *Model
+	hist          []HistOp
+	invokeSeq     map[int]int
+	stopping      bool
+	budgetStop    bool
+	parkedLog     []string
+	merging       map[string][]string // actor -> ids of live documents in the segments it is merging
+	callWin       map[int]int
+	prevMonKey    string
+	snapReads     []readData
 
-	depth      int
-	forkPath   []ForkStep
-	startImage map[string][]byte
-	startModel *Model
-	uidPrefix  string
+	depth         int
+	forkPath      []ForkStep
+	startImage    map[string][]byte
+	startModel    *Model
+	uidPrefix     string
 	inheritSegVer int
-	plan        *FaultPlan
-	faultReplay *faultCase
-	osHook      *OSHook
-	commits     int
-	commitEpochs map[string]bool
-	tornEpochs  map[uint64]bool
-	dirInvSeen  int
-	slotBusy    map[int]bool   // slot reserved by an open/close operation in flight (scheduler goroutine only)
-	slotOf      map[string]int // client -> slot it reserved
-	conc        bool
-	closeAfter  int // EarlyClose: start closing after this many client operations (0: at quiescence)
-	earlyClosed bool
-	diffQueries []qSpec
-	extQueries  []qSpec
-	dupDone     bool
-	dupID       string
-	reopening   string // client that is closing and reopening the writer right now
-	ackCount    map[int]int // persisted-callback invocations per batch
-	closeSpans  [][2]int    // [first, last] window of every Close call
-	refAnswers  map[int]*answer
-	observations []Violation // non-fatal observations matched against known findings by the driver
-	expectPlan  *mergeplan.MergePlan
-	execMerges  []string
-	maxEligible int
-	opsIssued   int
-	docs       map[string]*DocSpec
-	recovered  map[int]*Content // image index -> recovered content (crash oracle)
+	plan          *FaultPlan
+	faultReplay   *faultCase
+	osHook        *OSHook
+	commits       int
+	commitEpochs  map[string]bool
+	tornEpochs    map[uint64]bool
+	dirInvSeen    int
+	slotBusy      map[int]bool   // slot reserved by an open/close operation in flight (scheduler goroutine only)
+	slotOf        map[string]int // client -> slot it reserved
+	conc          bool
+	closeAfter    int // EarlyClose: start closing after this many client operations (0: at quiescence)
+	earlyClosed   bool
+	diffQueries   []qSpec
+	extQueries    []qSpec
+	dupDone       bool
+	dupID         string
+	reopening     string      // client that is closing and reopening the writer right now
+	ackCount      map[int]int // persisted-callback invocations per batch
+	closeSpans    [][2]int    // [first, last] window of every Close call
+	refAnswers    map[int]*answer
+	observations  []Violation // non-fatal observations matched against known findings by the driver
+	expectPlan    *mergeplan.MergePlan
+	execMerges    []string
+	maxEligible   int
+	opsIssued     int
+	docs          map[string]*DocSpec
+	recovered     map[int]*Content // image index -> recovered content (crash oracle)
 }
 
 // HistOp is one completed client operation with event-sequence stamps.
@@ -1394,7 +1396,11 @@ func (r *Run) Execute() {
 	r.conc = r.p.Concurrent
 	r.s.quiet = r.conc
 	r.s.shieldV2 = r.conc && !r.p.Unshielded
-	if r.p.EarlyClose && t.Chance(2, 3, "run.earlyclose") {
+	ecNum, ecDen := 2, 3
+	if r.p.EarlyCloseOneIn > 0 {
+		ecNum, ecDen = 1, r.p.EarlyCloseOneIn
+	}
+	if r.p.EarlyClose && t.Chance(ecNum, ecDen, "run.earlyclose") {
 		total := 0
 		for _, n := range r.k.Ops {
 			total += n
@@ -1598,13 +1604,26 @@ func (r *Run) quiescentChecks() {
 			return
 		}
 	}
-	// close held readers (re-reading them a last time)
-	for i, h := range r.slots {
-		if h != nil {
-			r.rereadHeld(i, h)
-			_ = h.r.Close()
-			r.slots[i] = nil
+	// close held readers (re-reading them a last time); with AcrossClose,
+	// in half of the runs, only after the writer was closed
+	acrossClose := r.p.AcrossClose && r.t.Chance(1, 2, "run.across-close")
+	closeHeld := func(probe string) {
+		for i, h := range r.slots {
+			if h != nil {
+				r.rereadHeld(i, h)
+				if r.failed() {
+					return
+				}
+				_ = h.r.Close()
+				r.slots[i] = nil
+				if probe != "" {
+					r.stats.Probes[probe]++
+				}
+			}
 		}
+	}
+	if !acrossClose {
+		closeHeld("")
 	}
 	if r.failed() {
 		return
@@ -1634,6 +1653,14 @@ func (r *Run) quiescentChecks() {
 	if closeErr != nil {
 		r.fail("close", "Writer.Close returned an error: "+closeErr.Error())
 		return
+	}
+	if acrossClose {
+		// the writer is gone (closed at quiescence, or while merges and
+		// persists were in progress): readers obtained from it keep answering
+		closeHeld("held-reader-read-after-writer-close")
+		if r.failed() {
+			return
+		}
 	}
 	r.handleAccounting()
 	if r.failed() {
